@@ -66,8 +66,13 @@ def h_bayes(sk, numeric, bsupport, nseed, bmode='sym', mustfail=False):
             [S.eq(om[i, j, k], P.spec_O(v, a, n, o)) for i, a in enumerate(al) for j, n in enumerate(sl) for k, o in enumerate(ol)] + [S.truth(om.shape == (len(al), len(sl), len(ol)))]))
         b = make_belief(sl, bsupport, mode=bmode, nseed=nseed)
         bd = DictDistribution(dict(b) if nseed % 2 == 0 else dict(reversed(list(b.items()))))      # the keys of a belief need not follow the state list
+        if len({tuple(sorted(map(str, skm.actions.get(s_, ())))) for s_ in sl}) > 1:
+            # state-dependent action sets: the dictionary belief lists only its support (the model has no next_state_dist for unavailable pairs)
+            bd = DictDistribution({s_: p_ for s_, p_ in bd.items() if s_ in bsupport})
         bvec = sym_array([b[s] for s in sl]) if S.symbolic() else np.array([b[s] for s in sl], dtype=float)
         for ai, a in enumerate(al):
+            if any(a not in skm.actions.get(s_, ()) for s_ in bsupport):
+                continue          # state-dependent action sets: the filter is asked only about actions available on the belief's support
             pred = pomdp.predictive_observation_dist(bd, a)
             pvec = pomdp.predictive_observation_vec(bvec, ai)
             okp, okv = [], []
@@ -486,6 +491,10 @@ def tasks(tier, seed):
                 if sk.name == 'p212':
                     T.append(Task('bayes/all-symbolic/' + nm, h_bayes, (sk, 'sym', sup, 0, 'sym'), tier='B', vc_timeout_ms=20000,
                                   note='every probability symbolic'))
+    for sk in P.family_state_dependent_actions():
+        for sup in (('l',), ('r',)):
+            for ns in (0, 1):
+                T.append(Task('bayes/state-dependent-actions/%s/b=%s/g%d' % (sk.name, '+'.join(sup), ns), h_bayes, (sk, 'generic', sup, ns, 'generic'), tier='B', vc_timeout_ms=20000))
     T.append(Task('U/state_estimator/abstract-belief-and-model', h_state_estimator_U, (), tier='U', note='both loops cut; unbounded supports', vc_timeout_ms=30000))
     T.append(Task('U/predictive_observation_dist/abstract-belief-and-model', h_predictive_U, (), tier='U', note='three nested loops cut; unbounded supports', vc_timeout_ms=30000))
     T.append(Task('rt/random', rt_random, (seed, 20 if tier == 'quick' else 200), tier='R', kind='rt'))
